@@ -897,6 +897,11 @@ void body()
         "static/world/char", "static/world/wchar_t"})
     vf::require_bucket(b);
   bool const dump = vf::has_extra("--dump"); // by hand: print every successful parse
+  vf::observation("repetition_plus (operator+) of a parser whose result is a tuple or fcppt::unit does not compile "
+                  "(repetition_plus_impl.hpp takes get<0>/get<1> of the flattened p >> *p); such fixtures cannot be written");
+  vf::observation("alternative_result removes duplicate types keeping the first occurrence (char|int|char = variant<char,int>); "
+                  "alternative_result.hpp documents variant<L_1..L_n,R_1..R_m> without mentioning it - adopted, not judged");
+  vf::observation("separator{inner,sep} accepts the empty sequence although separator_decl.hpp calls it equivalent to Inner >> *(Sep >> Inner) - adopted, not judged");
   std::uint64_t running = 0, fwi = 0;
   vf::count("static/fixtures", 0);
   for (fixture const &fx : fixtures)
@@ -965,29 +970,34 @@ void body()
         std::string want;
         if (ref.ok)
           print(want, ref.val);
-        // real
-        outcome got = w.run(in, which);
-        vf::count(std::string("static/entry/") + got.entry_point);
-        if (got.ok)
+        // real: every entry point that applies (with the epsilon skipper both parse_string and phrase_parse_string)
+        for (unsigned ep = 0; ep < (w.sk == SK::eps ? 2U : 1U); ++ep)
         {
-          VF_COUNT("static/outcome/success");
-          vf::count(success_bucket);
-          if (dump)
-            std::fprintf(stderr, "%s | %s | \"%s\" => %s\n", entry.c_str(), got.entry_point, in.c_str(), got.canon.c_str());
-        }
-        else if (got.fatal)
-          VF_COUNT("static/outcome/fatal-failure");
-        else
-          VF_COUNT("static/outcome/failure");
-        bool const bad = got.ok != ref.ok || (got.ok && got.canon != want) || (!got.ok && got.fatal != ref.fatal);
-        if (bad)
-        {
-          std::string cls = got.ok != ref.ok ? (got.ok ? "accepts-what-the-semantics-rejects" : "rejects-what-the-semantics-accepts")
-                                             : (got.ok ? "wrong-value" : "wrong-fatal-flag");
-          vf::violation(entry + "/" + cls, "mismatch",
-                        std::string(got.entry_point) + " | input: \"" + in + "\" | real: " +
-                            (got.ok ? "ok " + got.canon : (got.fatal ? "FATAL" : "fail")) + " | reference: " +
-                            (ref.ok ? "ok " + want : (ref.fatal ? "FATAL" : "fail")) + " | grammar: " + gtext);
+          outcome got = w.run(in, which + ep);
+          vf::count(std::string("static/entry/") + got.entry_point);
+          if (got.ok)
+          {
+            VF_COUNT("static/outcome/success");
+            vf::count(success_bucket);
+            if (dump)
+              std::fprintf(stderr, "%s | %s | \"%s\" => %s\n", entry.c_str(), got.entry_point, in.c_str(), got.canon.c_str());
+          }
+          else if (got.fatal)
+            VF_COUNT("static/outcome/fatal-failure");
+          else
+            VF_COUNT("static/outcome/failure");
+          bool const bad = got.ok != ref.ok || (got.ok && got.canon != want) || (!got.ok && got.fatal != ref.fatal);
+          if (bad)
+          {
+            std::string cls = got.ok != ref.ok ? (got.ok ? "accepts-what-the-semantics-rejects" : "rejects-what-the-semantics-accepts")
+                                               : (got.ok ? "wrong-value" : "wrong-fatal-flag");
+            vf::violation(entry + "/" + cls, "mismatch",
+                          std::string(got.entry_point) + " | input: \"" + in + "\" | real: " +
+                              (got.ok ? "ok " + got.canon : (got.fatal ? "FATAL" : "fail")) + " | reference: " +
+                              (ref.ok ? "ok " + want : (ref.fatal ? "FATAL" : "fail")) + " | grammar: " + gtext);
+          }
+          if (ep == 1)
+            vf::add_evals(1);
         }
       }
       vf::count(w.wide ? "static/world/wchar_t" : "static/world/char");
